@@ -15,7 +15,7 @@ static std::vector<const Fmt *> lossless_formats ()
 static int64_t frame_cap (const Fmt &f, int ch)
 {	int64_t cap = 40000 / ch ;
 	if (cap > 20000) cap = 20000 ;
-	if (f.sub >= SF_FORMAT_ALAC_16 && f.sub <= SF_FORMAT_ALAC_32) cap = std::min<int64_t> (cap, 9000) ;
+	if (f.sub >= SF_FORMAT_ALAC_16 && f.sub <= SF_FORMAT_ALAC_32) cap = std::min<int64_t> (cap, 17000) ;		// five packets of 4096 frames: boundaries that are not the last packet
 	if (cap < 4) cap = 4 ;
 	return cap ;
 }
@@ -39,6 +39,8 @@ static int64_t gen_writer (GenCtx &g, J &ops, const Fmt &f, int ch, int rate, co
 		w ["T"] = stype_name (T) ;
 		if (g.rng.chance (0.5)) w ["fr"] = 1 ;
 		int64_t n = g.pick_frames (B, ch, cap - N) ;
+		// ALAC: half of the files span more than two packets of 4096 frames
+		if (k == 0 && f.sub >= SF_FORMAT_ALAC_16 && f.sub <= SF_FORMAT_ALAC_32 && g.rng.chance (0.5)) n = std::min<int64_t> (cap, 8192 + n) ;
 		w ["n"] = (long long) n ;
 		N += n ;
 		ops.push (w) ;
@@ -195,6 +197,9 @@ static Verdict check_c04 (const J &plan)
 
 static void gen_reader_history (GenCtx &g, J &ops, const Fmt &f, int ch, int rate, int64_t N, int nops, bool fixedT, int T, bool seek_heavy)
 {	int B = block_frames (f, ch, rate) ;
+	// ALAC reports exact frame counts (B = 1 for the frame-count model) but decodes packets of 4096 frames: seek targets use the packet size
+	int Bread = B ;
+	if (f.sub >= SF_FORMAT_ALAC_16 && f.sub <= SF_FORMAT_ALAC_32) B = 4096 ;
 	int64_t pos = 0 ;
 	for (int k = 0 ; k < nops ; k++)
 	{	bool do_seek = g.rng.chance (seek_heavy ? 0.5 : 0.25) ;
@@ -212,6 +217,7 @@ static void gen_reader_history (GenCtx &g, J &ops, const Fmt &f, int ch, int rat
 			else if (r < 72) tgt = -1 - (int64_t) g.rng.below (3) ;				// negative: must be refused
 			else tgt = N > 0 ? (int64_t) g.rng.below ((uint64_t) N + 1) : 0 ;
 			if (g.rng.chance (0.6) && pos > 0) tgt = (int64_t) g.rng.below ((uint64_t) pos + 1) ;	// backwards emphasised
+			if (B > 1 && nb >= 1 && g.rng.chance (0.15)) tgt = std::min<int64_t> (N, (1 + (int64_t) g.rng.below ((uint64_t) nb)) * B) ;	// exactly on a block boundary other than 0
 			int whence = (int) g.rng.below (3) ;
 			int64_t off = whence == 0 ? tgt : whence == 1 ? tgt - pos : tgt - N ;
 			s ["off"] = (long long) off ; s ["whence"] = whence ;
@@ -223,7 +229,7 @@ static void gen_reader_history (GenCtx &g, J &ops, const Fmt &f, int ch, int rat
 			int rt = fixedT ? T : (int) g.rng.below (g.rng.chance (0.1) && f.sample_granular () ? 5 : 4) ;
 			rd ["T"] = stype_name (rt) ;
 			if (g.rng.chance (0.5)) rd ["fr"] = 1 ;
-			int64_t n = g.pick_frames (B, ch, -1) ;
+			int64_t n = g.pick_frames (Bread, ch, -1) ;
 			if (g.rng.chance (0.12)) n = std::max<int64_t> (1, N - pos) + (int64_t) g.rng.below (4) ;	// remaining, remaining+k
 			if (g.rng.chance (0.05)) n = 0 ;
 			rd ["n"] = (long long) n ;
